@@ -57,7 +57,8 @@ def do_call(dd, method, fn, overwrite, multi=0):
         dd.update_jsondict(fn, {'added': 5})
     elif method == 'delete_files':
         # a protected name anywhere in the list must make the whole call refuse, before anything is removed
-        dd.delete_files([[fn], [USER, fn], [fn, USER], [USER, fn, 'does-not-exist']][multi % 4])
+        # (variant 4: the bare name instead of a list - a plausible slip of the caller)
+        dd.delete_files([[fn], [USER, fn], [fn, USER], [USER, fn, 'does-not-exist'], str(fn)][multi % 5])
     elif method.startswith('open_'):
         mode = {'open_w': 'w', 'open_a': 'a', 'open_x': 'x', 'open_rplus': 'r+', 'open_wb': 'wb', 'open_ab': 'ab',
                 'open_rbplus': 'rb+'}[method]
@@ -113,6 +114,8 @@ def _job(args):
                             if got != 'OSError' or df:
                                 if verdict == 'OsError' and method == 'delete_files' and got == 'ok' and not df:
                                     continue      # deleting what the OS cannot find is a no-op, not an error
+                                if method == 'delete_files' and verdict == 'Refused' and (ri + k0 + seed) % 5 == 4 and not df:
+                                    continue      # a bare string is iterated character by character: nothing may change
                                 out['bad'].append({**case, 'expected': 'OSError and directory byte-identical',
                                                    'got': got, 'changed': df[:3]})
                         else:
